@@ -5,6 +5,7 @@ vector) are enumerated by TLC (TaskTransitionGen), each is run on the real core 
 whole-core simulation (real gRPC API, simulated Mesos/executors answering per script), and the
 recorded runs are validated by TLC against spec/TaskTransitionTrace.tla.
 """
+import re
 import json
 
 import coresim as cs
@@ -209,6 +210,11 @@ def judge(ctx, scenarios, lines):
         if ln["ev"] == "Api":
             return {k: ln.get(k, "") for k in ("ev", "scn", "call", "op")}
         if ln["ev"] == "MMessage":
+            # a command to a task of an EARLIER scenario's environment (its teardown, arriving late under load) is not a command
+            # of the request under test: the class name carries the scenario it belongs to
+            m = re.search(r"s([0-9]+)", str(ln.get("class", "")))
+            if m and int(m.group(1)) != ln["scn"] and int(m.group(1)) in by_id:
+                return None
             return {k: ln.get(k, "") for k in ("ev", "scn", "event", "class", "outcome", "task")}
         return ln
     tf = cs.write_trace(ctx, lines, keep=proj)
